@@ -1320,16 +1320,24 @@ fn do_open_flow(
 fn do_expand_flow(s: &mut Incent, ctx: &mut Ctx, before: &Obs, actor: usize, flow: &FlowRef, asset: usize, declared: u128, sent: u128, end: Option<u64>, fault: Fault) -> Option<Obs> {
     let op = "expand_flow";
     let who = s.actors[actor];
-    let asset = asset % 5;
+    // asset >= 100: a native coin whose denom is the address of the cw20 asset (asset - 100)
+    let lookalike = asset >= 100 && !s.is_native(asset % 5);
+    let asset = asset % 100 % 5;
     let inc = s.incentive.clone();
     let mut msgs = vec![];
     let mut funds = vec![];
-    if s.is_native(asset) {
+    let mut declared_asset = s.asset(asset, declared);
+    if lookalike {
+        let denom = crate::world::asset_id(&s.assets[asset]);
+        funds.push((denom.clone(), sent));
+        declared_asset.info = AssetInfo::NativeToken { denom };
+        ctx.probe("expansion_paid_in_lookalike_native_coin");
+    } else if s.is_native(asset) {
         funds.push((s.denom(asset), sent));
     } else {
         msgs.extend(s.set_allowance_msgs(asset, who, &inc, sent));
     }
-    msgs.push(wasm_exec(&inc, &incentive::ExecuteMsg::ExpandFlow { flow_identifier: s.flow_ident(flow), end_epoch: end, flow_asset: s.asset(asset, declared) }, funds_of(&funds)));
+    msgs.push(wasm_exec(&inc, &incentive::ExecuteMsg::ExpandFlow { flow_identifier: s.flow_ident(flow), end_epoch: end, flow_asset: declared_asset }, funds_of(&funds)));
     let Done { r, after } = run_tx(s, ctx, who, msgs, fault, op)?;
     let ok = r.outcome.is_ok();
     let i_inc = s.i_inc();
@@ -1350,7 +1358,7 @@ fn do_expand_flow(s: &mut Incent, ctx: &mut Ctx, before: &Obs, actor: usize, flo
                             let reset = fb.hist.is_empty() && fb.end_latest().saturating_sub(fb.start) > 180;
                             let n2 = reset && received == ii(declared) && fa_.rec_out() == declared.saturating_sub(fb.claimed).saturating_add(declared);
                             // a cw20 expansion is recorded but its TransferFrom is never dispatched
-                            let n3 = !n2 && !s.is_native(fasset) && fasset == asset && received == I256::ZERO && drec == ii(declared) && sent >= declared;
+                            let n3 = !n2 && !lookalike && !s.is_native(fasset) && fasset == asset && received == I256::ZERO && drec == ii(declared) && sent >= declared;
                             let known = if n2 { Some("N6") } else if n3 { Some("N7") } else { None };
                             if n3 {
                                 ctx.probe("cw20_flow_expansion_not_transferred");
